@@ -8,6 +8,7 @@ import PartituraModel.Proofs.C17Acc
 import PartituraModel.Proofs.C17Window
 import PartituraModel.Proofs.C17Voices
 import PartituraModel.Proofs.C17Key
+import PartituraModel.Proofs.C17Corr
 
 namespace C17
 open Model Gen
@@ -78,7 +79,7 @@ theorem double_acc_default (notes : List Ps13.Row) (sp : List (String × Int × 
 
 /-- the bound needs the note in its own window: with K_post = 0 the first note sees an empty
     window, every morph strength is 0, `argmax` answers morph 0 = step A, and an E flat becomes
-    an A with six flats... (model-level witness; the code's default is 40) -/
+    an A with six sharps (model-level witness; the code's default is 40) -/
 example : C17P.alterOf 6 0 = 6 := by decide +kernel
 
 /-- order independence: permuting the rows permutes the (row, spelling) pairs — a row that is the
@@ -198,6 +199,19 @@ def keyRowOK (i : Nat) : Bool :=
     in `key_transpose` IS "tonic moved by s, same mode") -/
 theorem key_name_roundtrip : ∀ i, i < 24 → keyRowOK i = true := by
   decide
+
+/-- Pearson correlation of the histogram with key `i`, over the reals (what `np.corrcoef` denotes) -/
+noncomputable def corr (ps : KeyEst.ProfileSet) (h : Nat → Rat) (i : Nat) : ℝ :=
+  ((KeyEst.cov12 h (KeyEst.keyProfile ps i) : ℚ) : ℝ) /
+    Real.sqrt (((KeyEst.cov12 h h : ℚ) : ℝ) * ((KeyEst.cov12 (KeyEst.keyProfile ps i) (KeyEst.keyProfile ps i) : ℚ) : ℝ))
+
+/-- the model's square-root-free comparison of two keys is exactly the comparison of their
+    correlation coefficients, for every non-constant histogram and the shipped profiles
+    (whose variances are positive: whole table, kernel-evaluated) -/
+theorem key_order_is_correlation_order (ps : KeyEst.ProfileSet) (h : Nat → Rat) (a b : Nat)
+    (ha : a < 24) (hb : b < 24) (hvar : 0 < KeyEst.cov12 h h) :
+    KeyEst.better (KeyEst.keyScore ps h a) (KeyEst.keyScore ps h b) = true ↔ corr ps h b < corr ps h a :=
+  C17K.better_iff_corr _ _ _ _ _ hvar (C17K.profile_variance_pos ps a ha) (C17K.profile_variance_pos ps b hb)
 
 /-- octave shifts (any multiple of 12, per note) leave the estimate unchanged -/
 theorem key_octave_inv (ps : KeyEst.ProfileSet) (notes : List KeyEst.KNote) (shifts : List Int)
